@@ -10,6 +10,7 @@
 //       del <mint> <maxt> <s|*> | compact | cleantomb | reopen
 //       q <mint> <maxt>      -> s<i>=t:v,t:v;…   (series with ≥1 sample, by index; "-" if none)
 //       win                  -> <headMinT> <headMaxT> <appendableMinValid|uninit>
+//                               (<headMinT> is printed as "~" from the first reopen of a case on)
 package main
 
 import (
@@ -37,6 +38,12 @@ type env struct {
 	db   *tsdb.DB
 	opts *tsdb.Options
 	app  storage.Appender
+	// restarted: a reopen happened in this case. From then on Head.MinTime() depends on the head chunk
+	// files (which samples sit in m-mapped chunks; whether chunks_head is discarded as corrupted at start
+	// and the head rebuilt from the WAL alone), which the reference-layer model does not contain;
+	// MinTime() is not part of C22's statement (suite db compares it, with an oracle). `win` prints "~"
+	// for it from the first restart on; the model does the same (RefsSuite.lean, renderWinAfterRestart).
+	restarted bool
 }
 
 func (e *env) open() error {
@@ -150,6 +157,7 @@ func (rn *runner) exec(op string) string {
 			o.RetentionDuration = 0
 			o.WALSegmentSize = 4 * 1024 * 1024 // segments roll over only at open / WAL truncation
 			e.opts = o
+			e.restarted = false
 			if err := e.open(); err != nil {
 				out = "err:" + strings.ReplaceAll(err.Error(), " ", "_")
 			} else {
@@ -224,6 +232,7 @@ func (rn *runner) exec(op string) string {
 				return
 			}
 			e.db = nil
+			e.restarted = true
 			if err := e.open(); err != nil {
 				out = "err:" + strings.ReplaceAll(err.Error(), " ", "_")
 			} else {
@@ -236,10 +245,14 @@ func (rn *runner) exec(op string) string {
 		case "win":
 			hd := e.db.Head()
 			mv, ok := hd.AppendableMinValidTime()
+			mint := strconv.FormatInt(hd.MinTime(), 10)
+			if e.restarted {
+				mint = "~"
+			}
 			if ok {
-				out = fmt.Sprintf("%d %d %d", hd.MinTime(), hd.MaxTime(), mv)
+				out = fmt.Sprintf("%s %d %d", mint, hd.MaxTime(), mv)
 			} else {
-				out = fmt.Sprintf("%d %d uninit", hd.MinTime(), hd.MaxTime())
+				out = fmt.Sprintf("%s %d uninit", mint, hd.MaxTime())
 			}
 		}
 	})
